@@ -62,6 +62,30 @@ func newC08Gen(ctx *core.RunCtx) *c08Gen {
 	return g
 }
 
+// halfDegree returns a generation context over the ring of half the degree with the same moduli (nil when the
+// parameters do not exist).
+func (g *c08Gen) halfDegree() *c08Gen {
+	if g.params.LogN() <= 3 {
+		return nil
+	}
+	base := g.params
+	c := g.ctx.Cached("c08/half/"+g.spec.Key(), func(*core.Xoshiro) any {
+		p, err := rlwe.NewParametersFromLiteral(rlwe.ParametersLiteral{LogN: base.LogN() - 1, Q: base.Q(), P: base.P(), RingType: base.RingType(), NTTFlag: base.NTTFlag()})
+		if err != nil {
+			return err
+		}
+		return &p
+	})
+	p, ok := c.(*rlwe.Parameters)
+	if !ok {
+		return nil
+	}
+	gs := *g
+	gs.params = *p
+	gs.spec.LogN--
+	return &gs
+}
+
 func (g *c08Gen) levelQ() int { return g.ch.Draw("levelQ", g.params.MaxLevelQ()+1) }
 func (g *c08Gen) levelP() int { return g.ch.Draw("levelP", g.params.MaxLevelP()+2) - 1 } // -1 .. MaxLevelP
 
